@@ -16,8 +16,21 @@ compared, inside Coq by vm_compute over Gaussian integers,
 normalize=True results are compared with the un-normalised ones after scaling by d per basis
 change (exact when sqrt(d) is an integer, otherwise within 1e-9 and labelled 'test').
 Spectral conversions (*_to_kraus, *_to_stinespring through eigh) are exercised as a test only.
+
+History streams (model C17/History.v, theorems C17/PropsHistory.v: a query / conversion is a function of the data and of
+the arguments of THIS call; every answer along any history is a fresh object's answer and all forms give the same output):
+  * object histories (harness/chan_hist.py): ONE gate-level channel object (the integer KrausChannel of every case, and
+    every built-in class incl. both thermal regimes) asked to_choi / to_liouville / to_pauli_liouville for every
+    order x nqubits x normalize x pauli_order in seeded sequences interleaved with executions in two register sizes and
+    with the caller overwriting returned arrays; each answer == a fresh object's (exact) == the documented map == (integer
+    cases) the value the main stream verified against C17/Model.v; the object's attribute tree stays as constructed;
+  * functional histories: every converter of the table called repeatedly on the SAME arrays (no copies) with varying
+    order / pauli_order; inputs never written; each result == the first-call value of the main stream;
+  * network histories: ONE QuantumChannel (pure and Choi form) applied to several states, full()/operator()/copy(),
+    composed on both sides with a second long-lived network, linked with states; each observation == fresh object's,
+    apply == sum K rho K^dagger exactly, source operators never written.
 """
-STATIC = ["C17/Props"]
+STATIC = ["C17/Props", "C17/PropsHistory"]
 import itertools
 import random
 import warnings
@@ -26,6 +39,7 @@ from concurrent.futures import ThreadPoolExecutor
 import numpy as np
 
 from lib import vcore
+from harness import chan_hist as H
 
 HEADER = """From Coq Require Import ZArith List Bool.
 From QV Require Import Base.Mat Base.Zi C17.Alg C17.Model C17.Spec C17.ZiInst.
@@ -590,6 +604,313 @@ def run_basis_probe(run, rng):
                     run.find(key, f"{key} at n={rp['n']} (pauli_order={rp['pauli_order']}) differs from the Coq model of the Pauli basis", rp)
 
 
+# ----------------------------------------------------------------------------- histories (C17/History.v, PropsHistory.v)
+CONCRETE = ("history_vs_fresh", "fresh_vs_spec", "fresh_vs_verified_value", "input_mutated", "returned_array_changed",
+            "constructor_input_mutated", "call_history")
+
+
+def case_spec(c):
+    from qibo import gates
+    K = c["kraus"]
+    return H.Spec(f"KrausChannel:{c['tag']}", "KrausChannel",
+                  (lambda K=K: gates.KrausChannel([q for q, _ in K], [M.copy() for _, M in K])), c["n"],
+                  H.oracle_terms(0.0, [(1.0, q, M) for q, M in K]), exact=True, info={"case": c["tag"], "n": c["n"]})
+
+
+def object_specs(seed, pl):
+    return [case_spec(c) for (c, *_r) in pl] + H.irrational_specs(random.Random(f"c17obj:{seed}"))
+
+
+def object_histories(run, pl, ctxs, only=None):
+    """ONE gate-level channel object asked for its representations in every order (interleaved with executions in registers
+    of two sizes): each answer == a fresh object's == the documented map; for the integer cases also == the value the main
+    stream verified against C17/Model.v"""
+    rng = random.Random(f"c17hist:{run.seed}")
+    verified = {}
+    for ctx in ctxs or []:
+        verified[f"KrausChannel:{ctx.c['tag']}"] = ({it.key: it.value for it in ctx.items}, ctx.n)
+    found, nobs = {}, 0
+    for sp in object_specs(run.seed, pl):
+        if only is not None:
+            if sp.name != only[0]:
+                continue
+            hists = [only[1]]
+        else:
+            nmax = min(4, sp.m + 1) if sp.m < 3 else sp.m
+            hists = [H.gen_history(rng, sp, nmax, 10, flavour=fl) for fl in (("orders", "random") if run.tier == "quick" else ("orders", "random", "random", "sizes"))]
+        for ops in hists:
+            problems, records = H.run_history(sp, ops, run.seed)
+            nobs += len(records)
+            run.case({"object_history": sp.name, "ops": ops}, True)
+            ver = verified.get(sp.name)
+            if ver:
+                vals, n = ver
+                for j, (op, r) in enumerate(records):
+                    key = None
+                    nq = op[-1] if op[-1] is not None else sp.m
+                    if nq != n:
+                        continue
+                    if op[0] == "choi":
+                        key = f"Channel.to_choi:order={op[1]}"
+                    elif op[0] == "liouville":
+                        key = f"Channel.to_liouville:order={op[1]}"
+                    elif op[0] == "pauli" and not op[1]:
+                        key = f"Channel.to_pauli_liouville:order=row,pauli_order={op[2]}"
+                    if key in vals:
+                        try:
+                            same = ints(r)[0] == vals[key]
+                        except ValueError:
+                            same = False
+                        if not same:
+                            problems.append({"step": ops.index(op), "op": op, "what": "fresh_vs_verified_value",
+                                             "detail": f"{key} of a fresh object differs from the value verified against the Coq model"})
+            for pb in problems:
+                key = f"history:{sp.cls}:{pb['what']}:{pb['op'][0]}"
+                conc = pb["what"] in CONCRETE
+                if key not in found or (conc and not found[key][2]):
+                    found[key] = (f"{sp.name}: step {pb['step']} {pb['op']} of a history on ONE channel object: {pb['detail']}"
+                                  + (f" (max difference {pb['max_diff']:.3g})" if pb.get("max_diff") is not None else ""),
+                                  {"stream": "object_history", "spec": sp.name, **sp.info, "history": ops[:pb["step"] + 1],
+                                   "step": pb["step"], "what": pb["what"]}, conc)
+    has_concrete = {k.split(":")[1] for k, v in found.items() if v[2]}
+    for key, (what, rp, conc) in found.items():
+        if not conc and key.split(":")[1] in has_concrete:
+            continue
+        run.find(key, what, rp, concrete=conc)
+    run.oblige("object_histories_every_answer_equals_fresh_object_and_verified_value", not found, "correspondence")
+    run.notes["object_histories"] = {"observations": nobs}
+
+
+def functional_table(c, orders, pos):
+    """(fn, order, pauli_order|None) -> thunk calling the converter on SHARED arrays (never copied); label of the main stream"""
+    import qibo.quantum_info as qi
+    n, d = c["n"], 2 ** c["n"]
+    sh = {"U": c["U"].copy(), "rho": c["rho"].copy(), "psi": c["psi"].copy(), "v0": c["v0"].copy(), "X": c["X"].copy(),
+          "vec": c["X"][0].copy()}
+    K = [(q, M.copy()) for q, M in c["kraus"]]
+    for i, (_, M) in enumerate(K):
+        sh[f"K{i}"] = M
+    D = len(K)
+    sh["st"] = np.asarray(qi.kraus_to_stinespring(K, nqubits=n, initial_state_env=sh["v0"]))
+    for o in orders:
+        sh[f"choi_{o}"] = np.asarray(qi.kraus_to_choi(K, order=o))
+        if o != "system":
+            sh[f"liou_{o}"] = np.asarray(qi.kraus_to_liouville(K, order=o))
+        for po in pos:
+            sh[f"chi_{o}_{po}"] = np.asarray(qi.kraus_to_chi(K, False, order=o, pauli_order=po))
+            if o != "system":
+                sh[f"pl_{o}_{po}"] = np.asarray(qi.kraus_to_pauli(K, False, order=o, pauli_order=po))
+    calls = {}
+
+    def B(fn, f, rc=False):
+        for o in orders:
+            if rc and o == "system":
+                continue
+            calls[(fn, o, None)] = (lambda o=o: f(o))
+    senv = dict(initial_state_env=sh["v0"], nqubits=n)
+    B("vectorization", lambda o: qi.vectorization(sh["rho"], order=o))
+    B("vectorization_statevector", lambda o: qi.vectorization(sh["psi"], order=o))
+    B("unvectorization", lambda o: qi.unvectorization(sh["vec"], order=o))
+    B("to_choi", lambda o: qi.to_choi(sh["U"], order=o))
+    B("kraus_to_choi", lambda o: qi.kraus_to_choi(K, order=o))
+    B("stinespring_to_choi", lambda o: qi.stinespring_to_choi(sh["st"], D, order=o, **senv))
+    B("to_liouville", lambda o: qi.to_liouville(sh["U"], order=o), True)
+    B("kraus_to_liouville", lambda o: qi.kraus_to_liouville(K, order=o), True)
+    B("choi_to_liouville", lambda o: qi.choi_to_liouville(sh[f"choi_{o}"], order=o), True)
+    B("liouville_to_choi", lambda o: qi.liouville_to_choi(sh[f"liou_{o}"], order=o), True)
+    B("stinespring_to_liouville", lambda o: qi.stinespring_to_liouville(sh["st"], D, order=o, **senv), True)
+
+    def Pt(fn, f, rc=False):
+        for o in orders:
+            if rc and o == "system":
+                continue
+            for po in pos:
+                calls[(fn, o, po)] = (lambda o=o, po=po: f(o, po, dict(order=o, pauli_order=po)))
+    Pt("pauli_basis_vectorized", lambda o, po, kw: qi.pauli_basis(n, False, vectorize=True, **kw))
+    Pt("comp_basis_to_pauli", lambda o, po, kw: qi.comp_basis_to_pauli(n, False, **kw))
+    Pt("pauli_to_comp_basis", lambda o, po, kw: qi.pauli_to_comp_basis(n, False, **kw))
+    Pt("to_chi", lambda o, po, kw: qi.to_chi(sh["U"], False, **kw))
+    Pt("kraus_to_chi", lambda o, po, kw: qi.kraus_to_chi(K, False, **kw))
+    Pt("choi_to_chi", lambda o, po, kw: qi.choi_to_chi(sh[f"choi_{o}"], False, **kw))
+    Pt("stinespring_to_chi", lambda o, po, kw: qi.stinespring_to_chi(sh["st"], D, normalize=False, **senv, **kw))
+    Pt("liouville_to_pauli", lambda o, po, kw: qi.liouville_to_pauli(sh["X"], False, **kw))
+    Pt("pauli_to_liouville", lambda o, po, kw: qi.pauli_to_liouville(sh["X"], False, **kw))
+    Pt("chi_to_choi", lambda o, po, kw: qi.chi_to_choi(sh[f"chi_{o}_{po}"], False, **kw))
+    Pt("to_pauli_liouville", lambda o, po, kw: qi.to_pauli_liouville(sh["U"], False, **kw), True)
+    Pt("kraus_to_pauli", lambda o, po, kw: qi.kraus_to_pauli(K, False, **kw), True)
+    Pt("choi_to_pauli", lambda o, po, kw: qi.choi_to_pauli(sh[f"choi_{o}"], False, **kw), True)
+    Pt("liouville_to_pauli_channel", lambda o, po, kw: qi.liouville_to_pauli(sh[f"liou_{o}"], False, **kw), True)
+    Pt("liouville_to_chi", lambda o, po, kw: qi.liouville_to_chi(sh[f"liou_{o}"], False, **kw), True)
+    Pt("stinespring_to_pauli", lambda o, po, kw: qi.stinespring_to_pauli(sh["st"], D, normalize=False, **senv, **kw), True)
+    Pt("pauli_to_liouville_channel", lambda o, po, kw: qi.pauli_to_liouville(sh[f"pl_{o}_{po}"], False, **kw), True)
+    Pt("pauli_to_choi", lambda o, po, kw: qi.pauli_to_choi(sh[f"pl_{o}_{po}"], False, **kw), True)
+    Pt("pauli_to_chi", lambda o, po, kw: qi.pauli_to_chi(sh[f"pl_{o}_{po}"], False, **kw), True)
+    Pt("chi_to_liouville", lambda o, po, kw: qi.chi_to_liouville(sh[f"chi_{o}_{po}"], False, **kw), True)
+    Pt("chi_to_pauli", lambda o, po, kw: qi.chi_to_pauli(sh[f"chi_{o}_{po}"], False, **kw), True)
+    return sh, calls
+
+
+def label_of(call):
+    fn, o, po = call
+    return f"{fn}:order={o}" + (f",pauli_order={po}" if po else "")
+
+
+def functional_history(run, c, expected, orders, pos, calls_seq=None, rng=None):
+    """the converters of quantum_info called again and again on the SAME arrays with varying order / pauli_order: inputs are
+    never written, every result is the first-call result on fresh copies (= the main-stream value verified against the model)"""
+    sh, calls = functional_table(c, orders, pos)
+    if calls_seq is None:
+        seq = sorted(calls, key=lambda k: (k[0], k[1], k[2] or ""))
+        rng.shuffle(seq)
+        seq = seq + rng.sample(seq, len(seq) // 2)
+    else:
+        seq = [tuple(x) for x in calls_seq]
+    snap = {k: v.tobytes() for k, v in sh.items()}
+    cj = case_json(c)
+    done = []
+    out = []
+    for call in seq:
+        if call not in calls:
+            continue
+        lab = label_of(call)
+        done.append(list(call))
+        run.case({"functional_history": c["tag"], "call": lab, "position": len(done)}, True)
+        rp = {"stream": "functional_history", "case": cj, "calls": list(done), "function": call[0], "args": lab.partition(":")[2]}
+        try:
+            with warnings.catch_warnings():
+                warnings.simplefilter("ignore")
+                val = calls[call]()
+            got = ints(val)[0]
+        except Exception as e:  # noqa: BLE001
+            out.append((f"history:{call[0]}:raises", f"{lab} raised {type(e).__name__}: {e} when called on arrays used before (case {c['tag']})", rp, True))
+            continue
+        if lab in expected and got != expected[lab]:
+            out.append((f"history:{call[0]}:call_history",
+                        f"{lab}: result number {len(done)} of a sequence of conversions on the same arrays differs from the result of the "
+                        f"first call on fresh copies (case {c['tag']})", rp, True))
+        for k, v in sh.items():
+            if v.tobytes() != snap[k]:
+                out.append((f"history:{call[0]}:input_mutated", f"{lab} wrote its input array '{k}' (case {c['tag']})", rp, True))
+                snap[k] = v.tobytes()
+    return out
+
+
+def network_history(run, c, ops, pure):
+    """ONE QuantumChannel object applied to several states, asked for full()/operator(), composed on both sides, linked with a
+    state, in a seeded order: every observation equals the one of a fresh object built from fresh copies, apply equals
+    sum K rho K^dagger exactly, the arrays handed in are never written"""
+    import qibo.quantum_info as qi
+    from qibo.quantum_info.quantum_networks import QuantumChannel
+    n, d = c["n"], 2 ** c["n"]
+    K = [(q, M.copy()) for q, M in c["kraus"]]
+    Es = [c["U"]] if pure else [embed_full(n, q, M) for q, M in K]
+    Fs = [embed_full(n, q, M).conj().T for q, M in K[:1]]           # the partner channel (one Kraus operator)
+    src = c["U"].copy() if pure else np.asarray(qi.kraus_to_choi(K, order="row"))
+    src2 = np.asarray(qi.kraus_to_choi([(tuple(range(n)), Fs[0])], order="row"))
+
+    def mk(a, b):
+        N = QuantumChannel.from_operator(a, (d, d), pure=True, inverse=True) if pure else QuantumChannel.from_operator(a, (d, d), inverse=True)
+        return N, QuantumChannel.from_operator(b, (d, d), inverse=True)
+
+    def rho_of(rid):
+        return H.rho_for(f"net:{c['tag']}", n, rid)
+
+    def act(ops_, rho):
+        return sum(E @ rho @ E.conj().T for E in ops_)
+
+    def obs(N, M, op):
+        k = op[0]
+        if k == "apply":
+            return np.asarray(N.apply(rho_of(op[1])))
+        if k == "copy_apply":
+            return np.asarray(N.copy().apply(rho_of(op[1])))
+        if k == "full":
+            return np.asarray(N.full())
+        if k == "full_update":
+            return np.asarray(N.full(update=True))
+        if k == "operator":
+            return np.array(N.operator(full=op[1]))
+        if k == "matmul_left":      # N first, then M
+            return np.asarray((N @ M).full()) if pure else np.asarray((N @ M)._tensor)
+        if k == "matmul_right":
+            return np.asarray((M @ N).full()) if pure else np.asarray((M @ N)._tensor)
+        if k == "link_state":
+            return np.asarray(QuantumChannel.from_operator(rho_of(op[1])).link_product("ij,jk -> ik", N).matrix())
+        raise KeyError(k)
+    a, b = src.copy(), src2.copy()
+    N, M = mk(a, b)
+    snap = (a.tobytes(), b.tobytes())
+    out, last = [], None
+    cj = case_json(c)
+    for i, op in enumerate(ops):
+        rp = {"stream": "network_history", "case": cj, "ops": ops[:i + 1], "pure": pure}
+        run.case({"network_history": c["tag"], "pure": pure, "op": op, "position": i}, True)
+        if op[0] == "scribble":
+            if last is not None and last.flags.writeable:
+                last[...] = 5 + 2j
+            continue
+        fresh = mk(src.copy(), src2.copy())
+        if any(o[0] == "full_update" or (o[0] == "operator" and o[1]) for o in ops[:i]):
+            # same abstract state: full(update=True) replaces the internal representation of a pure network by the full tensor
+            # (documented); operator(full=True) does the same silently (it calls self.full(backend), i.e. update=backend) --
+            # the network stays the same channel, is_pure() turns False
+            fresh[0].full(update=True)
+        try:
+            with warnings.catch_warnings():
+                warnings.simplefilter("ignore")
+                got, ref = obs(N, M, op), obs(*fresh, op)
+        except Exception as e:  # noqa: BLE001
+            out.append((f"history:QuantumChannel.{op[0]}:raises", f"{op} raised {type(e).__name__}: {e} on a network object used before", rp, True))
+            continue
+        if got.shape != ref.shape or not np.array_equal(got, ref):
+            out.append((f"history:QuantumChannel.{op[0]}:history_vs_fresh",
+                        f"step {i} {op} on ONE QuantumChannel object ({'pure' if pure else 'Choi'}, case {c['tag']}) differs from the same call on a "
+                        "fresh object", rp, True))
+        want = None
+        if op[0] in ("apply", "copy_apply", "link_state"):
+            want = act(Es, rho_of(op[1]))
+        if want is not None and not np.array_equal(ref, want):
+            out.append((f"history:QuantumChannel.{op[0]}:fresh_vs_spec", f"{op} of a fresh QuantumChannel differs from sum K rho K^dagger (case {c['tag']})", rp, True))
+        if (a.tobytes(), b.tobytes()) != snap:
+            out.append((f"history:QuantumChannel.{op[0]}:input_mutated", f"{op} wrote the operator the network was built from", rp, True))
+            snap = (a.tobytes(), b.tobytes())
+        last = got if op[0] not in ("operator", "full_update") else None     # those may be views of the object's own tensor
+    return out
+
+
+def gen_network_ops(rng, length):
+    ops = []
+    for _ in range(length):
+        k = rng.choice(["apply", "apply", "copy_apply", "full", "operator", "matmul_left", "matmul_right", "link_state", "scribble", "full_update"])
+        if k in ("apply", "copy_apply", "link_state"):
+            ops.append([k, rng.randrange(3)])
+        elif k == "operator":
+            ops.append([k, rng.random() < 0.5])
+        else:
+            ops.append([k])
+    return ops
+
+
+def history_streams(run, pl, ctxs):
+    rng = random.Random(f"c17fn:{run.seed}")
+    object_histories(run, pl, ctxs)
+    found = {}
+    for ctx, (c, orders, pos, _norm, nets, _sp) in zip(ctxs, pl):
+        if ctx.n > 2:
+            continue
+        expected = {it.key: it.value for it in ctx.items}
+        pos2 = list(pos[:1]) + ([rng.choice(list(pos[1:]))] if len(pos) > 1 else [])
+        res = functional_history(run, c, expected, orders, pos2, rng=rng)
+        if nets:
+            for pure in (False, True):
+                res += network_history(run, c, gen_network_ops(rng, 14 if run.tier == "quick" else 40), pure)
+        for key, what, rp, conc in res:
+            found.setdefault(key, (what, rp, conc))
+    for key, (what, rp, conc) in found.items():
+        run.find(key, what, rp, concrete=conc)
+    run.oblige("functional_and_network_histories_equal_first_call_on_fresh_data", not found, "correspondence")
+
+
 # ----------------------------------------------------------------------------- driver
 def coq_check(run, ctxs, jobs=8):
     """evaluate, per case, model==impl and spec(impl) inside Coq; returns {(ci, idx): (eq, spec)}"""
@@ -665,10 +986,11 @@ RULE = ("seeded integer Kraus sets (asymmetric: K != K^T, K != K^dagger; on perm
         "(function, order, pauli_order, channel) output compared entry-for-entry with the Coq model and, where the "
         "output is a channel representation, through its textbook action on an asymmetric integer rho; a case is "
         "non-trivial when the output matrix is not symmetric under the index permutation being tested "
-        "(counted: output differs from its transpose)")
+        "(counted: output differs from its transpose); plus seeded histories on one channel object / one QuantumChannel / "
+        "one set of shared arrays (every observation vs a fresh object, the documented map and the main-stream value)")
 
 
-def check_plan(run, pl, only_key=None):
+def check_plan(run, pl, only_key=None, beside=None):
     ctxs = []
     for (c, orders, pos, norm, nets, spectral) in pl:
         ctx = CaseCtx(c)
@@ -681,7 +1003,14 @@ def check_plan(run, pl, only_key=None):
         if only_key is not None:
             ctx.items = [it for it in ctx.items if it.key.split(":")[0] == only_key.split(":")[0]]
         ctxs.append(ctx)
+    side = None
+    if beside is not None:            # python-only streams that need the observed values run beside the Coq evaluation
+        side_pool = ThreadPoolExecutor(max_workers=1)
+        side = side_pool.submit(beside, ctxs)
     res = coq_check(run, ctxs)
+    if side is not None:
+        side.result()
+        side_pool.shutdown()
     n_norm_exact = n_norm_tol = 0
     for ci, ctx in enumerate(ctxs):
         cj = case_json(ctx.c)
@@ -759,6 +1088,9 @@ def main(run):
             for ax in re.findall(r"([A-Z]\w*(?:\.\w+)+)\s*:", pa[name]):
                 run.axioms.add(ax)
     run.checker_cmds.append("make -C coq theories/C17/Props.vo")
+    okh, pah = vcore.static_assumptions("C17/PropsHistory")
+    for name in vcore.props_theorems("C17/PropsHistory.v"):
+        run.oblige(name, okh and name in pah, "static theorem (query histories on one channel object)")
     class Side:                      # collects the probe's results apart, merged after both parts are done
         def __init__(self):
             self.cases, self.found = [], []
@@ -774,7 +1106,8 @@ def main(run):
     side_run = Side()
     with ThreadPoolExecutor(max_workers=1) as side:      # the n=3/n=4 basis probe runs beside the conversion table
         fut = side.submit(run_basis_probe, side_run, random.Random(run.seed + 1))
-        check_plan(run, plan(run.tier, rng))
+        pl = plan(run.tier, rng)
+        check_plan(run, pl, beside=lambda ctxs: history_streams(run, pl, ctxs))
         fut.result()
     for c, nt in side_run.cases:
         run.case(c, nt)
@@ -799,6 +1132,29 @@ def replay(run, data):
         run_unitaries_probe(run)
         run.findings = [f for f in run.findings if f.key == data["key"]][:1]
         return run.finish(rule="replay of the kraus_to_unitaries row/column probe")
+    if rp.get("stream") == "object_history":
+        run.seed = int(data.get("seed", run.seed))
+        run.tier = data.get("tier", run.tier)
+        object_histories(run, plan(run.tier, random.Random(run.seed)), None, only=(rp["spec"], rp["history"]))
+        run.findings = [f for f in run.findings if f.key == data["key"]][:1] or run.findings[:1]
+        return run.finish(rule="replay of one recorded history on one channel object")
+    if rp.get("stream") == "functional_history":
+        c = case_from_json(rp["case"])
+        calls = [tuple(x) for x in rp["calls"]]
+        orders = tuple(o for o in ORDERS if any(x[1] == o for x in calls))
+        pos = sorted({x[2] for x in calls if x[2]}) or ["IXYZ"]
+        ctx = CaseCtx(c)                       # first-call values on fresh copies (this process has no history yet)
+        run_basic(ctx, orders)
+        run_pauli(ctx, orders, pos, False)
+        for key, what, r2, conc in functional_history(run, c, {it.key: it.value for it in ctx.items}, orders, pos, calls_seq=calls):
+            run.find(key, what, r2, concrete=conc)
+        run.findings = [f for f in run.findings if f.key == data["key"]][:1] or run.findings[:1]
+        return run.finish(rule="replay of one recorded sequence of conversions on shared arrays")
+    if rp.get("stream") == "network_history":
+        for key, what, r2, conc in network_history(run, case_from_json(rp["case"]), rp["ops"], rp["pure"]):
+            run.find(key, what, r2, concrete=conc)
+        run.findings = [f for f in run.findings if f.key == data["key"]][:1] or run.findings[:1]
+        return run.finish(rule="replay of one recorded history on one QuantumChannel object")
     if "case" not in rp:
         return run.finish(rule="replay: nothing to re-execute")
     c = case_from_json(rp["case"])
